@@ -192,6 +192,7 @@ pub fn all() -> Vec<Scn> {
     v.push(scn("up100-srv65535-all-w7", 7, 65_535, vec![St::post(100, 16_384, Read::All, Echo)]).srv(65_535, None));
     v.push(scn("up70000-srv65535-all-w65535", 65_535, 65_535, vec![St::post(70_000, 16_384, Read::All, Bytes(10))]).srv(65_535, Some(65_535)));
     v.push(scn("up70000-srv65535-slow-echo-w65535", 65_535, 65_535, vec![St::post(70_000, 16_384, Read::Slow, Echo)]).srv(65_535, Some(65_535)));
+    v.push(scn("up65580-srv65535-srvconn16-all-w65535", 65_535, 65_535, vec![St::post(65_580, 16_384, Read::All, Bytes(10))]).srv(65_535, Some(16)));
     v.push(scn("up100-srv16-srvconn-all-w7", 7, 65_535, vec![St::post(100, 16_384, Read::All, Echo)]).srv(16, Some(65_535)));
     v.push(scn("two-up60-srv16-all-slow-w7", 7, 65_535, vec![St::post(60, 16_384, Read::All, Echo), St::post(60, 16_384, Read::Slow, Bytes(9))]).srv(16, None));
     v.push(scn("up-nothing-and-up-all-srv16-w7", 7, 65_535, vec![St::post(60, 16_384, Read::Nothing, Bytes(9)), St::post(60, 16_384, Read::All, Echo)]).srv(16, None));
